@@ -41,7 +41,7 @@ theorem chainBuf_length (n : Nat) : (chainBuf n).length = 3 + 2 * n := by
   | succ n ih => simp [chainBuf, ih]; omega
 
 theorem chainStart_lt (n : Nat) : chainStart n < 3 + 2 * n := by
-  cases n <;> simp [chainStart]; omega
+  cases n <;> simp [chainStart] <;> omega
 
 theorem ptrMask_eq : ptrMask = 2 ^ 14 - 1 := by decide
 
@@ -65,7 +65,7 @@ theorem chain_enc : ∀ n, n ≤ 100 → EncName (chainBuf n) n (chainStart n) [
     have hoff : chainStart (n + 1) = (chainBuf n).length := by simp [chainStart, hlen]
     simp only [Nat.succ_ne_zero, ↓reduceIte, chainBuf]
     rw [hoff]
-    refine EncName.ptr (hi := 192) (lo := UInt8.ofNat (chainStart n)) (by simp) (by simp) (by decide) ?_ (by simp)
+    refine EncName.ptr (e' := chainStart n + (if n = 0 then 3 else 2)) (hi := 192) (lo := UInt8.ofNat (chainStart n)) (by simp) (by simp) (by decide) ?_ (by simp)
     rw [htgt]
     exact key
 
